@@ -2,6 +2,7 @@
 import math
 
 import numpy as np
+from hypothesis import strategies as st
 
 from .. import e2e
 from .. import spec as S
@@ -34,7 +35,19 @@ def budget(tier):
 
 
 def strategy(tier):
-    return S.problems(PROFILE)
+    # one case in five: problems prone to second-order-correction steps, with an iteration limit that binds
+    # (SOC steps evaluate twice in one iteration: the budgets and counters must account for that)
+    return st.integers(0, 4).flatmap(lambda k: soc_cases() if k == 0 else S.problems(PROFILE))
+
+
+@st.composite
+def soc_cases(draw):
+    from ..engine import dec, enc
+
+    sp = dec(draw(S.problems(dict(PROFILE, **S.SOC_PRONE))))
+    sp["options"]["maxiter"] = draw(st.integers(1, 12))
+    sp["options"]["maxfev"] = draw(st.integers(8, 60))
+    return enc(sp)
 
 
 def run_case(spec):
